@@ -25,7 +25,7 @@
 From Coq Require Import List ZArith NArith Bool.
 From TskVerif Require Import Base.Common Gen.Generated C20.Model C20.Spec C20.HartiganProofs C20.TopProofs
   C20.BoundProofs C20.StackProofs C20.FixProofs C20.ArrayProofs C20.EndToEnd C20.CurrentProofs
-  C20.Refuted C20.Examples.
+  C20.PyProofs C20.Refuted C20.Examples.
 Import ListNotations.
 
 (* (a) Hartigan's invariant for the sets the code computes — every tree (polytomies, unary
@@ -185,6 +185,78 @@ Theorem c_map_mutations_sound :
        (exists ls, consistent_list roots ls = true /\ forest_changes a ls = length tr) /\
        forallb (unary_ok false tr) roots = true).
 Proof. exact c_map_mutations_sound_lemma. Qed.
+
+(* ---- the Python layer: Tree.map_mutations (trees.py) around the C function ---- *)
+(* ancestral_state: a str is looked up with alleles.index — it resolves to the FIRST position
+   holding that string and is never interpreted as a number; an int is taken as it is after the
+   range check against len(alleles) *)
+Theorem py_resolve_ancestral_state : forall (anc : anc_arg) (alleles : list Z) (a0 : option Z),
+  resolve_anc anc alleles = Ok a0 ->
+  match anc, a0 with
+  | ANone, None => True
+  | AInt k, Some i => i = k /\ (0 <= k < zlen alleles)%Z
+  | AStr s, Some i => (0 <= i < zlen alleles)%Z /\ nth_error alleles (Z.to_nat i) = Some s /\
+                      forall k, (k < Z.to_nat i)%nat -> nth_error alleles k <> Some s
+  | _, _ => False
+  end.
+Proof. exact resolve_anc_spec. Qed.
+
+(* ... and is rejected (ValueError) exactly when the string is no allele / the int is out of range *)
+Theorem py_resolve_ancestral_state_rejects : forall (anc : anc_arg) (alleles : list Z) (c : Z),
+  resolve_anc anc alleles = Err c ->
+  match anc with
+  | ANone => False
+  | AInt k => (k < 0 \/ zlen alleles <= k)%Z
+  | AStr s => ~ In s alleles
+  end.
+Proof. exact resolve_anc_err. Qed.
+
+(* whatever core is wrapped: a returned result is the core's result on the resolved ancestral
+   state, through the allele map — same nodes, parent indices, order and length; states replaced
+   by alleles[state]; and the genotypes fitted int8, were non-empty and of length num_samples *)
+Theorem py_result_is_core_result :
+  forall (core : tree_arrays -> list Z -> option Z -> res (Z * list trans))
+         (ta : tree_arrays) (g : list Z) (anc : anc_arg) (alleles : list Z) (sa : Z) (muts : list (Z * Z * Z)),
+  py_map_mutations core ta g anc alleles = MOk sa muts ->
+  exists a0 a tr,
+    resolve_anc anc alleles = Ok a0 /\
+    Forall (fun x => (- 2 ^ (c20_py_genotype_bits - 1) <= x <= 2 ^ (c20_py_genotype_bits - 1) - 1)%Z) g /\
+    g <> [] /\ zlen g = zlen (ta_samples ta) /\
+    core ta g a0 = Ok (a, tr) /\
+    get alleles a = Ok sa /\ muts = map (tr_map alleles 0%Z) tr.
+Proof. exact py_ok_inv. Qed.
+
+(* on every valid input (genotypes non-empty, of length num_samples, each -1 or an index into
+   alleles below 64, not all missing; ancestral_state resolvable and below 64; arrays of a tree)
+   the wrapper raises nothing: it returns the translated result of [c_map_mutations] — to which
+   [c_map_mutations_property] applies *)
+Theorem py_map_mutations_valid :
+  forall (ta : tree_arrays) (g : list Z) (anc : anc_arg) (alleles : list Z) (a0 : option Z) (roots : list tree),
+  (g <> [] /\ zlen g = zlen (ta_samples ta) /\
+   Forall (fun x => (-1 <= x < zlen alleles)%Z /\ (x < c20_py_max_alleles)%Z) g /\
+   exists x, In x g /\ x <> (-1)%Z) ->
+  resolve_anc anc alleles = Ok a0 ->
+  match a0 with Some i => (i < c20_py_max_alleles)%Z | None => True end ->
+  rose_of_arrays ta g = Ok roots ->
+  arrays_okb ta roots = true ->
+  exists a tr,
+    c_map_mutations ta g a0 = Ok (Z.of_N a, tr) /\
+    py_map_mutations c_map_mutations ta g anc alleles =
+      MOk (nth (N.to_nat a) alleles 0%Z) (map (tr_map alleles 0%Z) tr).
+Proof. exact py_map_mutations_valid_lemma. Qed.
+
+(* F14 (still open): with root_threshold > 1 a sample may lie under no root; it is then not a
+   node of [roots] and the statements above say nothing about it.  The correspondence runs the
+   cores through [guarded], the model of the proposed repair (reject such trees), switched by a
+   re-extracted fact that is false on the current code: [guarded] is then the identity, and in
+   any case it only ever turns a result into a rejection. *)
+Theorem guarded_only_rejects :
+  forall (core : tree_arrays -> list Z -> option Z -> res (Z * list trans))
+         (ta : tree_arrays) (g : list Z) (anc : option Z) (r : Z * list trans),
+  (guarded core ta g anc = Ok r -> core ta g anc = Ok r) /\
+  (c20_rejects_unvisited_samples = false -> guarded core ta g anc = core ta g anc) /\
+  (all_samples_visited ta = Ok true -> guarded core ta g anc = core ta g anc).
+Proof. exact guarded_only_rejects_lemma. Qed.
 
 (* ---- historical record: the PINNED (pre-fix) variant [mm_rose] on the original tree ---- *)
 (* optimal only when no internal sample has a missing genotype ... *)
